@@ -293,8 +293,13 @@ class C06(Oracle):
                     if cps is None or ctx.pre_objs is None:
                         begun = True
                     elif i in cps:
-                        prev = ctx.pre_objs[i - 1]
-                        begun = any(all(x is not y for y in prev) for x in ctx.pre_objs[i])
+                        prev, cur = ctx.pre_objs[i - 1], ctx.pre_objs[i]
+                        begun = any(all(x is not y for y in prev) for x in cur)
+                        if not begun:
+                            # a setting that is stopped and started again shows as a changed stacking order
+                            cp = [x for x in prev if any(x is y for y in cur)]
+                            cc = [x for x in cur if any(x is y for y in prev)]
+                            begun = len(cp) != len(cc) or any(x is not y for x, y in zip(cp, cc))
                 if not begun:
                     if cell_wf:
                         want_cell = tuple(pre.cells[i]) + new
@@ -828,7 +833,6 @@ class C09(Oracle):
                 allowed = badops.allowed(ctx.op) if k == 'bad' else badops.TV
                 require(isinstance(e, allowed), 'documented_error_type', op=ctx.op,
                         got='%s: %s' % (type(e).__name__, msg), allowed=[t.__name__ for t in allowed])
-                w.count('fault:' + (ctx.op['what'] if k == 'bad' else 'format_spec_op'))
                 # after a raised error the receiver is unchanged
                 b, a_ = ctx.pre_all[ctx.recv_slot], ctx.post_all[ctx.recv_slot]
                 require(a_ is not None and a_.key() == b.key(), 'failed_call_leaves_receiver_unchanged', op=ctx.op,
@@ -843,8 +847,6 @@ class C09(Oracle):
                 # an ordinary operation with documented argument types and values raised
                 raise Fail('successful_history_then_operation_raises', op=ctx.op,
                            exc='%s: %s' % (type(e).__name__, msg))
-        elif k == 'bad':
-            w.count('fault_not_raised:' + ctx.op['what'])
         require(ctx.result_sick is None, 'result_fails_self_check', op=ctx.op,
                 exc=None if ctx.result_sick is None else '%s: %s' % (type(ctx.result_sick).__name__, ctx.result_sick))
         # health of the whole pool
